@@ -65,8 +65,11 @@ type Tree struct {
 	P       *chaincfg.Params
 	Genesis *Block
 	ByHash  map[chainhash.Hash]*Block
-	Keys    []Key
-	salt    uint64
+	// lastTip/lastChain: the block mined last and the headers up to it.
+	lastTip   *Block
+	lastChain []wire.BlockHeader
+	Keys      []Key
+	salt      uint64
 }
 
 // NewTree creates a tree holding only the genesis block of p.
@@ -186,7 +189,14 @@ func ForkPoint(a, b *Block) *Block {
 
 // Extend mines a child of parent.
 func (t *Tree) Extend(parent *Block, o MineOpts) *Block {
-	chain := parent.Headers()
+	// (mining a long chain block by block: the parent's header list is the
+	// one built for the previous call, plus that call's header)
+	var chain []wire.BlockHeader
+	if t.lastTip == parent && t.lastChain != nil {
+		chain = t.lastChain
+	} else {
+		chain = parent.Headers()
+	}
 	ts := o.Time
 	if ts.IsZero() {
 		ts = parent.Hdr.Timestamp.Add(10 * time.Minute)
@@ -254,6 +264,7 @@ func (t *Tree) Extend(parent *Block, o MineOpts) *Block {
 		Broken: o.Break, Tainted: parent.Tainted || o.Break != ""}
 	b.CumWork = new(big.Int).Add(parent.CumWork, Work(hdr.Bits))
 	t.ByHash[b.Hash] = b
+	t.lastTip, t.lastChain = b, append(chain, hdr)
 	return b
 }
 
